@@ -81,6 +81,30 @@ def run_case(case, ctx):
         st.seen("hint_class", "%s%s%s" % ("a" if hints[0] is not None else "-", "b" if hints[1] is not None else "-", "o" if hints[2] is not None else "-"))
         if 0 in hints[:2]:
             st.count("hints_with_index_0")
+    # every option given by position, in the documented order; the result is judged here against the tolerance the caller
+    # gave (the 7th argument), whatever name the function's own signature binds it to
+    if case["s"] % 3 == 1 and hintsets:
+        hints = hintsets[-1]
+        events.seed_all(case["s"] + 9)
+        try:
+            r = mofun.find_pattern_in_structure(atoms, patoms, hints[0], hints[1], hints[2], True, atol, False)
+        except Exception as e:
+            if type(e).__name__ == "PostBroken":
+                raise
+            r = None
+            st.count("searches_that_raised.%s" % type(e).__name__)
+        st.count("direct_searches")
+        if r is not None:
+            st.count("searches_with_every_option_by_position")
+            from vmon import contracts
+            try:
+                if contracts.c01_domain(atoms, patoms, atol, need_inside=False):
+                    for clause, msg, w in contracts.c01_clauses(atoms, patoms, atol, r):
+                        ctx.fail("positional call (structure, pattern, %r, %r, %r, True, %r, False): %s" % (hints[0], hints[1], hints[2], atol, msg), key="positional." + clause, witness=w)
+                    nmatches += len(r[0])
+            except Exception as e:
+                ctx.fail("positional call with return_positions_and_quats=True returned something that is not (matches, positions, rotations): %s: %s" % (type(e).__name__, str(e)[:120]),
+                         key="positional.uninspectable")
     # the same search as made by the replacement routine (replacement = the pattern itself)
     try:
         events.seed_all(case["s"])
@@ -159,6 +183,8 @@ def requirements(stats, tier):
                     (stats.get("matches_after_inplace_edit"), sorted(stats.sets.get("inplace_edit", []))))
     if stats.get("matches_in_unwrapped_structures") < (100 if tier == "quick" else 5000):
         need.append("matches reported for structures with atoms stored outside the cell: %d" % stats.get("matches_in_unwrapped_structures"))
+    if stats.get("searches_with_every_option_by_position") < 50:
+        need.append("searches with every option given by position: %d" % stats.get("searches_with_every_option_by_position"))
     if stats.nseen("hint_class") < 5:
         need.append("hint classes observed: %s" % sorted(stats.sets.get("hint_class", [])))
     if stats.get("hints_with_index_0") < 20:
